@@ -41,6 +41,7 @@ type Exec struct {
 	KnownIDs    map[string]bool
 	StubSets    map[string]bool
 	globalInitTried map[string]bool
+	globalInitFailed map[string]bool
 }
 
 type OKind int
@@ -108,6 +109,12 @@ func (ex *Exec) CallFn(st *State, fn *ssa.Function, args []Value, bound []Value,
 		return outs
 	}
 	if fn.Blocks == nil {
+		// a body-less declaration bound by //go:linkname: the one function of the same name
+		// and signature that has a body
+		if target := ex.linknameTarget(fn); target != nil {
+			ex.noteStub("linkname:" + fn.String() + " -> " + target.String())
+			return ex.CallFn(st, target, args, bound, depth)
+		}
 		return []Outcome{{St: st, Kind: OAbort, Abort: "UNSUPPORTED: no body for " + fn.String()}}
 	}
 	if ex.Stats.Funcs == nil {
